@@ -8,6 +8,7 @@ mod eof;
 mod fork;
 mod probe;
 mod ringbuf;
+mod rms;
 mod tree;
 
 use simcore::Scenario;
@@ -22,6 +23,7 @@ fn main() {
         &adaptors::AdaptorsScenario,
         &eof::EofScenario,
         &converter::ConverterScenario,
+        &rms::RmsScenario,
     ];
     simcore::cli::main(&scens)
 }
